@@ -47,6 +47,6 @@ func ZZ_C13_bytelen() {
 	n := rt.Int("n")
 	rt.Assume(n >= 0)
 	rt.Assume(n < 1<<40)
-	rt.Assert(getDataByteLength(zzTypeNames[ti], n) == n*zzTypeWidth[ti], "bytelen")
+	rt.Assert(int64(getDataByteLength(zzTypeNames[ti], n)) == int64(n)*int64(zzTypeWidth[ti]), "bytelen")
 	rt.Reach("end")
 }
